@@ -76,7 +76,7 @@ ASSUMPTIONS = [
     "own conversion error above the band and is not generated); lat in [-90, 90], lon in "
     "[-180, 180]",
 ]
-MIN_NONTRIVIAL = {"quick": 3000, "thorough": 40000}
+MIN_NONTRIVIAL = {"quick": 10000, "thorough": 150000}
 REQUIRED_COUNTERS = {"geo.query.calls": 5000, "perm.installed": 2000,
                      "perm.exhaustive_families": 30, "range.query.calls": 200,
                      "split_units.calls": 300, "geo.distance.values": 5000,
@@ -462,9 +462,8 @@ def classify_pairs(case, fam, exp, rows, shuffler, prob):
         if unit:
             metric = effective_metric(case)
             # the radius the result would be right for, among "number x other factor"
-            for fac_name, (p, q) in list(gm.KM_PER_UNIT.items()) + [("x1e-6", (1, 10 ** 6)),
-                                                                    ("x1e-4", (1, 10 ** 4)),
-                                                                    ("x1e-2", (1, 100))]:
+            for fac_name, (p, q) in [("x1e-6", (1, 10 ** 6)), ("x1e-4", (1, 10 ** 4)),
+                                     ("x1e-2", (1, 100))] + list(gm.KM_PER_UNIT.items()):
                 r_alt = gm.LD(num) * gm.LD(p) / gm.LD(q)
                 if r_alt == exp["r_km"]:
                     continue
@@ -473,7 +472,8 @@ def classify_pairs(case, fam, exp, rows, shuffler, prob):
                 alt = {"must": set(zip(*[x.tolist() for x in np.nonzero(must)])),
                        "may": set(zip(*[x.tolist() for x in np.nonzero(may)]))}
                 if not judge_pairs(rows, alt):
-                    if gm.UNIT_FAMILY.get(unit) == "cm":
+                    # 'cm-unit': one centimetre taken as 1e-6 km (instead of 1e-5 km)
+                    if gm.UNIT_FAMILY.get(unit) == "cm" and fac_name == "x1e-6":
                         return "cm-unit"
                     return "radius-unit"
     return "pair-set"
@@ -568,10 +568,11 @@ def check_geo(rec, case, fam=None):
             return keys
         if case.get("perm") is not None:
             if shuffler != list(case["perm"]):
-                rec.count("shuffle.patch_missed")
-                rec.inconc("installed permutation not found in GeoIndex.shuffler")
-                return keys
-            rec.count("perm.installed")
+                # the implementation post-processed what the shuffle produced: judge with the
+                # permutation it really used, but do not claim the schedule was installed
+                rec.count("perm.altered_by_implementation")
+            else:
+                rec.count("perm.installed")
         else:
             rec.count("perm.native")
         if len(shuffler) <= 8:
@@ -710,10 +711,18 @@ class Deferred:
         return getattr(self._rec, name)
 
 
+_SEEN = {}
+
+
 def run_geo_case(rec, case, fam=None):
     d = Deferred(rec)
     keys = check_geo(d, case, fam)
     for key in dict.fromkeys(keys):
+        _SEEN[key] = _SEEN.get(key, 0) + 1
+        if _SEEN[key] > 4:
+            # the recorder keeps three cases per mechanism: count the rest without shrinking
+            rec.violation(key, case, [v[2] for v in d.viols if v[0] == key][0])
+            continue
         small = case if case.get("shrunk") else shrink_geo(case, key)
         q = _Quiet()
         check_geo(q, small)
